@@ -75,6 +75,10 @@ impl TactClient {
 
         tracing::debug!("TACT request URL: {}", url);
 
+        #[cfg(feature = "verif-hooks")]
+        let response =
+            crate::verif_hooks::http_send(&self.client, &url, Some(self.timeout)).await?;
+        #[cfg(not(feature = "verif-hooks"))]
         let response = self.client.get(&url).timeout(self.timeout).send().await?;
 
         // Check status
